@@ -185,6 +185,9 @@ func retryOracles(run *retryRun, cfg string, modelSettled, stuck, havePlan bool,
 		for i, e := range pl {
 			p := e.pkt
 			if p.Topic != want.Topic || string(p.Payload) != string(want.Payload) || p.Retain != want.Retain || p.QoS != firstP.QoS || (p.HasID && p.ID != firstP.ID) {
+				if p.Topic != want.Topic || string(p.Payload) != string(want.Payload) || p.Retain != want.Retain {
+					v = append(v, viol("C05", "publish-fields-on-retry", "transmission %d of message %d carries topic %q retain %v payload %x, the application asked for %q %v %x", i, m, p.Topic, p.Retain, p.Payload, want.Topic, want.Retain, want.Payload))
+				}
 				v = append(v, viol("C12", "retransmission-fields", "transmission %d of message %d differs from the first (id %d/%d qos %d/%d topic %q retain %v)", i, m, p.ID, firstP.ID, p.QoS, firstP.QoS, p.Topic, p.Retain))
 			}
 			if i == 0 && p.Dup {
@@ -450,6 +453,18 @@ func retryOracles(run *retryRun, cfg string, modelSettled, stuck, havePlan bool,
 			gap := s.dialAt[j+1].Sub(s.failAt[j])
 			if gap < want {
 				v = append(v, viol("C09", "redial-too-early", "redial %d came %v after the failure, configured wait is %v", j+1, gap, want))
+			}
+		}
+	}
+	// a predicted dial never happened: the loop is wedged (e.g. waiting for a CONNACK without a bound)
+	if len(run.planMiss) > 0 && !stuck {
+		var want, got int
+		if n, _ := fmt.Sscanf(run.planMiss[0][strings.Index(run.planMiss[0], "want{"):], "want{d%d", &want); n == 1 {
+			if i := strings.Index(run.planMiss[0], "got{d"); i >= 0 {
+				fmt.Sscanf(run.planMiss[0][i:], "got{d%d", &got)
+				if got < want {
+					v = append(v, viol("C09", "no-redial", "the client did not dial again although the connection attempt had ended or should have timed out: %s", run.planMiss[0]))
+				}
 			}
 		}
 	}
